@@ -87,6 +87,68 @@ def blsLen (a : Bls.Op) : Nat := (Bls.Op.expand a).length
 /-- `bls.is_aligned_at(d)`, i.e. `set(bls % d) == {0}` -/
 def blsIsAlignedAt (a : Bls.Op) (d : Nat) : M Bool := if d = 0 then throw .zeroDivision else pure (Bls.isAlignedAt a d)
 
+/-! The byte-buffer fragment used by `_BitWriter` / `_BitReader` of `_serdes.py` (`Gen/Serdes.lean`).  `bytes` / `bytearray` are lists of
+    naturals; that every element is below 256 is an invariant the bridge proves (`setByte` / `appendByte` raise what `bytearray` raises
+    when it would be violated), not a property of the type. -/
+/-- `divmod(a, b)` on non-negative ints -/
+def divmod (a b : Nat) : M (Nat × Nat) := if b = 0 then throw .zeroDivision else pure (a / b, a % b)
+/-- `max(0, a - b)`: the one place where a difference may be negative without being an error -/
+def max0Sub (a b : Nat) : Nat := a - b
+/-- `x & ~m` on non-negative ints: the bits of `x` that are not bits of `m` (no negative intermediate value) -/
+def andNot (x m : Nat) : Nat := Nat.bitwise (fun a b => a && !b) x m
+def toBytesLittleAux : Nat → Nat → List Nat
+  | 0, _ => []
+  | n + 1, x => x % 256 :: toBytesLittleAux n (x / 256)
+/-- `x.to_bytes(n, "little")` (OverflowError when `x` needs more than `n` bytes) -/
+def toBytesLittle (x n : Nat) : M (List Nat) :=
+  if x < 256 ^ n then pure (toBytesLittleAux n x) else throw (.other "OverflowError")
+/-- `int.from_bytes(b, "little")` -/
+def fromBytesLittle : List Nat → Nat
+  | [] => 0
+  | b :: bs => b + 256 * fromBytesLittle bs
+/-- `b * n` on bytes -/
+def bytesRepeat (l : List Nat) (n : Nat) : List Nat := (List.replicate n l).flatten
+/-- `b[lo:hi]` for non-negative indices (out-of-range indices are clipped, `hi < lo` gives the empty slice) -/
+def slice {α : Type} (l : List α) (lo hi : Nat) : List α := (l.take hi).drop lo
+/-- `b[lo:hi] = d` on a bytearray for non-negative indices: indices are clipped to the length, `hi < lo` inserts at `lo` -/
+def setSlice (l : List Nat) (lo hi : Nat) (d : List Nat) : List Nat :=
+  let lo' := min lo l.length
+  let hi' := max lo' (min hi l.length)
+  l.take lo' ++ d ++ l.drop hi'
+/-- `b[i] = v` on a bytearray (IndexError when out of range, ValueError when `v` is not in `range(256)`) -/
+def setByte (l : List Nat) (i v : Nat) : M (List Nat) :=
+  if i < l.length then (if v < 256 then pure (l.set i v) else throw .valueError) else throw (.other "IndexError")
+/-- `b.append(v)` on a bytearray (ValueError when `v` is not in `range(256)`) -/
+def appendByte (l : List Nat) (v : Nat) : M (List Nat) := if v < 256 then pure (l ++ [v]) else throw .valueError
+/-- CPython's default recursion limit: the fuel of a method that calls itself (`RecursionError` when it runs out) -/
+def recursionLimit : Nat := 1000
+
+theorem testBit_andNot (x m i : Nat) : (andNot x m).testBit i = (x.testBit i && !m.testBit i) := by
+  unfold andNot; rw [Nat.testBit_bitwise (by rfl)]
+theorem toBytesLittleAux_length (n x : Nat) : (toBytesLittleAux n x).length = n := by
+  induction n generalizing x with
+  | zero => rfl
+  | succ n ih => simp [toBytesLittleAux, ih]
+theorem toBytesLittleAux_lt (n x : Nat) : ∀ b ∈ toBytesLittleAux n x, b < 256 := by
+  induction n generalizing x with
+  | zero => intro b hb; cases hb
+  | succ n ih =>
+    intro b hb
+    simp only [toBytesLittleAux, List.mem_cons] at hb
+    rcases hb with rfl | hb
+    · exact Nat.mod_lt _ (by decide)
+    · exact ih _ b hb
+theorem fromBytesLittle_toBytesLittleAux (n x : Nat) : fromBytesLittle (toBytesLittleAux n x) = x % 256 ^ n := by
+  induction n generalizing x with
+  | zero => simp [toBytesLittleAux, fromBytesLittle, Nat.mod_one]
+  | succ n ih =>
+    simp only [toBytesLittleAux, fromBytesLittle, ih]
+    rw [Nat.pow_succ, Nat.mul_comm (256 ^ n) 256, Nat.mod_mul]
+theorem bytesRepeat_zero_byte (n : Nat) : bytesRepeat [0] n = List.replicate n 0 := by
+  induction n with
+  | zero => rfl
+  | succ n ih => simp [bytesRepeat, List.replicate_succ] at ih ⊢
+
 /-- A `for` loop whose body updates the loop-carried state `σ`. -/
 def forEach {α σ : Type} (l : List α) (init : σ) (body : σ → α → M σ) : M σ := l.foldlM body init
 
